@@ -14,6 +14,7 @@ import ConjureVerif.Model.DoubleOps
 import ConjureVerif.Model.Endpoint
 import ConjureVerif.Model.Call
 import ConjureVerif.Model.Idents
+import ConjureVerif.Model.Wire
 import ConjureVerif.Model.GenOrder
 /-
 Line-protocol driver.  One operation per input line: `<property> <op> <args…>`; one output line per
@@ -31,6 +32,7 @@ def dispatch (line : String) : String :=
   | "C13" :: rest => AnyIO.handle rest
   | "C10" :: rest => EnumUnion.handle rest
   | "C14" :: rest => DoubleOps.handle rest
+  | "C02" :: rest => Wire.handle rest
   | "C03" :: rest => Idents.handle rest
   | "C04" :: rest => Call.handle rest
   | "C20" :: rest => GenOrder.handle rest
